@@ -240,3 +240,151 @@ func lastIf(b *ssa.BasicBlock) (*ssa.If, bool) {
 	ifi, ok := b.Instrs[len(b.Instrs)-1].(*ssa.If)
 	return ifi, ok
 }
+
+// ---------------------------------------------------------------------------
+// R69: a GC pass takes its rules from the table's live family definitions.
+//
+// C16: "never alters … families without a rule".  The rules a pass applies are
+// the `GcRule` fields of the families in `table.def`, read under the table lock
+// when the pass starts.  A second copy of the rules kept in another field of
+// the table (a cache maintained by ModifyColumnFamilies) has to be invalidated
+// on every path that changes a family — drop, re-create without a rule, update —
+// and a missed path makes later passes collect cells of a family that has no
+// rule.  Structural necessary condition: the rule argument of every applyGC call
+// reached from table.gc derives from GcRule field loads, not from a field of
+// `table` other than its definition.
+// ---------------------------------------------------------------------------
+
+func R69() Rule {
+	return Rule{Name: "R69", Run: func(c *core.Ctx) {
+		P := c.P
+		if P.SPkgs[core.PkgBttest] == nil {
+			return
+		}
+		root := P.MustFunc(core.PkgBttest, "(*table).gc")
+		c.Fn("(*table).gc")
+		scope := P.Scope(root, func(f *ssa.Function) bool { return core.PkgPathOf(f) != core.PkgBttest })
+		apply := P.MustFunc(core.PkgBttest, "applyGC")
+		n := 0
+		for _, ci := range core.CallsIn(scope, func(ci *core.CallInfo) bool { return ci.Static == apply }) {
+			n++
+			construct := fmt.Sprintf("(*table).gc/applyGC#%d/rule-from-live-definition", n)
+			var ruleArg ssa.Value
+			for _, a := range ci.Common.Args {
+				if nm := core.NamedOf(a.Type()); nm != nil && nm.Obj().Name() == "GcRule" {
+					ruleArg = a
+				}
+			}
+			if ruleArg == nil {
+				c.Unknown("R69", construct, ci.Instr.Pos(), "applyGC is called without a *GcRule argument")
+				continue
+			}
+			good, bad := 0, token.NoPos
+			badField := ""
+			seen := map[ssa.Value]bool{}
+			var slice func(v ssa.Value, depth int)
+			slice = func(v ssa.Value, depth int) {
+				if v == nil || depth > 16 || seen[v] {
+					return
+				}
+				seen[v] = true
+				switch x := v.(type) {
+				case *ssa.Lookup:
+					slice(x.X, depth+1)
+				case *ssa.Extract:
+					slice(x.Tuple, depth+1)
+				case *ssa.Next:
+					slice(x.Iter, depth+1)
+				case *ssa.Range:
+					slice(x.X, depth+1)
+				case *ssa.MakeMap:
+					for _, r := range core.Referrers(x) {
+						if mu, ok := r.(*ssa.MapUpdate); ok && mu.Map == ssa.Value(x) {
+							slice(mu.Value, depth+1)
+						}
+					}
+				case *ssa.Phi:
+					for _, e := range x.Edges {
+						slice(e, depth+1)
+					}
+				case *ssa.Parameter:
+					fn := x.Parent()
+					for i, p := range fn.Params {
+						if p != x {
+							continue
+						}
+						for _, r := range P.Refs(fn) {
+							if call, ok := r.Instr.(ssa.CallInstruction); ok && r.Kind == core.RefCall && i < len(call.Common().Args) {
+								slice(call.Common().Args[i], depth+1)
+							}
+						}
+					}
+				case *ssa.FreeVar:
+					if cell := core.CellOf(x); cell != nil {
+						for _, st := range core.StoresTo(cell) {
+							slice(st.Val, depth+1)
+						}
+					} else {
+						slice(core.FreeVarValue(x), depth+1)
+					}
+				case *ssa.Call:
+					if callee := x.Call.StaticCallee(); callee != nil && callee.Blocks != nil && core.PkgPathOf(callee) == core.PkgBttest {
+						for _, r := range returnsIn(callee) {
+							for _, res := range r.Results {
+								if types.Identical(res.Type(), x.Type()) || len(r.Results) == 1 {
+									slice(res, depth+1)
+								}
+							}
+						}
+					}
+				case *ssa.UnOp:
+					if x.Op != token.MUL {
+						return
+					}
+					if fa, ok := x.X.(*ssa.FieldAddr); ok {
+						owner := core.NamedOf(fa.X.Type())
+						_, fname, _ := core.FieldName(fa)
+						if owner != nil && fname == "GcRule" && owner.Obj().Name() == "ColumnFamily" {
+							good++
+							return
+						}
+						if owner != nil && owner.Obj().Pkg() != nil && owner.Obj().Pkg().Path() == core.PkgBttest && core.TName(owner) == "table" && fname != "def" {
+							bad, badField = x.Pos(), fname
+							return
+						}
+						return
+					}
+					if cell := core.CellOf(x.X); cell != nil {
+						for _, st := range core.StoresTo(cell) {
+							slice(st.Val, depth+1)
+						}
+						// a map kept in a (captured) variable: what is put into it through any load of the variable
+						for _, f := range core.Family(core.Root(cell.Parent())) {
+							for _, b := range f.Blocks {
+								for _, in := range b.Instrs {
+									if mu, ok := in.(*ssa.MapUpdate); ok {
+										if ld, ok := core.Strip(mu.Map).(*ssa.UnOp); ok && ld.Op == token.MUL && core.CellOf(ld.X) == cell {
+											slice(mu.Value, depth+1)
+										}
+									}
+								}
+							}
+						}
+					}
+				}
+			}
+			slice(ruleArg, 0)
+			switch {
+			case bad != token.NoPos:
+				c.Bad("R69", construct, bad, "the rule this pass applies is taken from table.%s, a copy of the families' GC rules kept beside the table definition: every path that changes a family (drop, re-create without a rule, update) has to keep it in step, and a family that was dropped and re-created without a rule keeps being collected by the stale entry", badField)
+			case good > 0:
+				c.Ok("R69", construct, ci.Instr.Pos(), true, "the rule derives from the GcRule field of the table's current family definitions (%d load(s))", good)
+			default:
+				c.Ok("R69", construct, ci.Instr.Pos(), false, "no second copy of the GC rules in a field of the table is involved")
+			}
+		}
+		if n == 0 {
+			c.Unknown("R69", "(*table).gc/applyGC", root.Pos(), "table.gc no longer reaches applyGC")
+		}
+	}}
+}
